@@ -12,7 +12,9 @@
 (* same result, whatever happened in between - unless the function is one  *)
 (* of the declared users of hidden inputs (numpy's global stream, fresh    *)
 (* entropy), which are exempt from the memo and from nothing else.         *)
-(* The user may change an array between calls (Mutate).                    *)
+(* The user may change an array between calls (Mutate), and may write into *)
+(* any object a call has returned (Scribble): returned objects are the     *)
+(* caller's, the library keeps no reference whose content matters.         *)
 (***************************************************************************)
 EXTENDS Integers, Sequences, FiniteSets, TLC, Json
 
@@ -21,6 +23,7 @@ CONSTANTS Funcs,          \* function ids
           Arrays,         \* array objects (pool instances)
           Depth,
           BugInPlace,     \* TRUE: function F1 writes into its first argument (self-test of the invariants)
+          BugSharedResult, \* TRUE: a returned object is the library's own (cached) one: what the caller writes into it is what later calls return
           Emit
 
 VARIABLES store, memo, hist, fresh
@@ -49,10 +52,20 @@ Mutate(a) ==
     /\ store' = [store EXCEPT ![a] = fresh] /\ memo' = memo /\ fresh' = fresh + 1
     /\ hist' = Append(hist, [op |-> "mutate", f |-> a, args |-> <<a>>, res |-> fresh])
 
+\* the caller overwrites the object an earlier call returned (it is the caller's): nothing the library knows may change
+Scribble(i) ==
+    /\ hist[i].op = "call"
+    /\ hist' = Append(hist, [op |-> "scribble", f |-> i, args |-> <<>>, res |-> 0])
+    /\ store' = store
+    /\ IF BugSharedResult
+          THEN /\ memo' = { IF m[2] = hist[i].res THEN <<m[1], fresh>> ELSE m : m \in memo } /\ fresh' = fresh + 1
+          ELSE /\ memo' = memo /\ fresh' = fresh
+
 Next == /\ Len(hist) < Depth
         /\ \/ \E f \in Funcs, a \in Arrays : Call(f, <<a>>)
            \/ \E f \in Funcs, a, b \in Arrays : Call(f, <<a, b>>)
            \/ \E a \in Arrays : Mutate(a)
+           \/ \E i \in 1..Len(hist) : Scribble(i)
 Spec == Init /\ [][Next]_vars
 
 -----------------------------------------------------------------------------
